@@ -202,7 +202,9 @@ defop("check_zero", lambda ns, x: x.check_zero(), ["IBF"])
 defop("check_nonzero", lambda ns, x: x.check_nonzero(), ["IF"])
 defop("check_positive", lambda ns, x: x.check_positive(), ["IBF"], lambda a, cfg, ts: _fits(a[0], cfg["b"]))
 # explicit width: "given a value in [-2^n, 2^n], check whether it is positive"
-defop("check_positive_n", lambda ns, x, n: x.check_positive(n), ["I", "i"], lambda a, cfg, ts: _fits(a[0], a[1]),
+defop("check_positive_n", lambda ns, x, n: x.check_positive(n), ["I", "i"],
+      # n + 1 bits must fit the field with room to spare (the small primes of the complete searches are chosen for bitlength b)
+      lambda a, cfg, ts: _fits(a[0], a[1]) and a[1] <= cfg["b"] + 1,
       weight=0.4, params={1: ("k", 0, 6)})
 defop("assert_zero", lambda ns, x: x.assert_zero(), ["IBF"], lambda a, cfg, ts: a[0] == 0, weight=0.5)
 defop("assert_nonzero", lambda ns, x: x.assert_nonzero(), ["IBF"], lambda a, cfg, ts: a[0] != 0, weight=0.5)
@@ -227,11 +229,11 @@ defop("from_bits", lambda ns, l: ns.rt.LinComb.from_bits(l) if len(l) else ns.rt
 def _from_bits_iterable(ns, l, k):
     # from_bits takes "an array of bits": the same bits handed over as a tuple, generator, iterator, reversed view or map
     forms = [lambda: tuple(l), lambda: (x for x in l), lambda: iter(l), lambda: reversed(l[::-1]), lambda: map(lambda x: x, l)]
-    return ns.rt.LinComb.from_bits(forms[k % len(forms)]())
+    return ns.rt.LinComb.from_bits(forms[k % len(forms)]()) if len(l) else None
 
 
 defop("from_bits_it", _from_bits_iterable, ["L", "i"], lambda a, cfg, ts: len(a[0]) > 0, weight=0.4, params={1: ("k", 0, 4)})
-defop("bit", lambda ns, l, k: l[k % len(l)], ["L", "i"], lambda a, cfg, ts: len(a[0]) > 0, params={1: ("k", 0, 40)})
+defop("bit", lambda ns, l, k: l[k % len(l)] if len(l) else None, ["L", "i"], lambda a, cfg, ts: len(a[0]) > 0, params={1: ("k", 0, 40)})
 defop("val", lambda ns, x: x.val(), ["IBF"], weight=0.5)
 # printing a traced value (repr / str / format) has no effect on the trace; the operation yields nothing
 defop("fmt", lambda ns, x: ("%r %s" % (x, x), "{}".format(x)) and None, ["IBFA"], weight=0.3)
